@@ -8,3 +8,6 @@ import BnpVerif.Props.C01
 #print axioms C01.readAll_delimited
 #print axioms C01.readAll_old_loses
 #print axioms C01.readAll_old_loses_fasta
+#print axioms C01.fasta_laws
+#print axioms C01.readAll_bytes_fasta
+#print axioms C01.entries_chunks_kLine
